@@ -231,6 +231,65 @@ func (f *Frame) modelCall(b *ssa.BasicBlock, st *State, fn *ssa.Function, fname 
 			c.axiom(r, eq(r, and(eqs...)))
 		}
 		return Val{t: r, typ: rt}, true
+	case "(*bytes.Buffer).WriteByte", "(*strings.Builder).WriteByte":
+		ln, data := tr.bufKeys()
+		l0 := sx("select", tr.memGet(st, ln), args[0].t)
+		d0 := tr.memGet(st, data)
+		st.mem[data] = c.define("H_"+data, tr.memSortFull(data), sx("store", d0, args[0].t, sx("store", sx("select", d0, args[0].t), l0, args[1].t)))
+		st.mem[ln] = c.define("H_"+ln, tr.memSortFull(ln), sx("store", tr.memGet(st, ln), args[0].t, it.addNW(l0, it.iconst(1))))
+		f.noteWrite(data, b.Index)
+		f.noteWrite(ln, b.Index)
+		c.note("bytes.Buffer / strings.Builder modelled by ghost content (length and byte array); WriteByte/WriteString/String/Len exact, WriteRune exact for ASCII")
+		return Val{t: "ifc_nil", typ: rt}, true
+	case "(*bytes.Buffer).WriteString", "(*strings.Builder).WriteString":
+		ln, data := tr.bufKeys()
+		l0 := c.define("bl", it.isort(), sx("select", tr.memGet(st, ln), args[0].t))
+		d0 := tr.memGet(st, data)
+		old := sx("select", d0, args[0].t)
+		na := c.declConst("Abuf", sx("Array", it.isort(), it.sort(intKind{8, false})))
+		sl := sx("slen", args[1].t)
+		c.softAxiom(na, fmt.Sprintf("(forall ((k %s)) (! (= (select %s k) (ite (and %s %s) (select (sbytes %s) %s) (select %s k))) :pattern ((select %s k))))",
+			it.isort(), na, it.le(I64, l0, "k"), it.lt(I64, "k", it.addNW(l0, sl)), args[1].t, it.sub(I64, "k", l0), old, na))
+		st.mem[data] = c.define("H_"+data, tr.memSortFull(data), sx("store", d0, args[0].t, na))
+		st.mem[ln] = c.define("H_"+ln, tr.memSortFull(ln), sx("store", tr.memGet(st, ln), args[0].t, it.addNW(l0, sl)))
+		f.noteWrite(data, b.Index)
+		f.noteWrite(ln, b.Index)
+		if tt, ok := rt.(*types.Tuple); ok && tt.Len() == 2 {
+			return Val{tup: []Val{{t: sl, typ: tt.At(0).Type()}, {t: "ifc_nil", typ: tt.At(1).Type()}}}, true
+		}
+		return Val{}, true
+	case "(*bytes.Buffer).WriteRune", "(*strings.Builder).WriteRune":
+		// ASCII exact; other runes: 1..4 unspecified bytes >= 0x80
+		ln, data := tr.bufKeys()
+		l0 := c.define("bl", it.isort(), sx("select", tr.memGet(st, ln), args[0].t))
+		d0 := tr.memGet(st, data)
+		old := sx("select", d0, args[0].t)
+		R := intKind{32, true}
+		B8 := intKind{8, false}
+		ascii := and(it.le(R, it.konst(R, bigInt(0)), args[1].t), it.lt(R, args[1].t, it.konst(R, bigInt(0x80))))
+		w := c.declConst("rw", it.isort())
+		na := c.declConst("Abuf", sx("Array", it.isort(), it.sort(B8)))
+		st.guard = and(st.guard, it.le(I64, it.iconst(1), w), it.le(I64, w, it.iconst(4)), imp(ascii, eq(w, it.iconst(1))))
+		c.softAxiom(na, fmt.Sprintf("(forall ((k %s)) (! (and (=> (or %s %s) (= (select %s k) (select %s k))) (=> (and %s %s (not %s)) %s)) :pattern ((select %s k))))",
+			it.isort(), it.lt(I64, "k", l0), it.le(I64, it.addNW(l0, w), "k"), na, old,
+			it.le(I64, l0, "k"), it.lt(I64, "k", it.addNW(l0, w)), ascii, it.le(B8, it.konst(B8, bigInt(0x80)), sx("select", na, "k")), na))
+		c.axiom(na, imp(ascii, eq(sx("select", na, l0), it.conv(R, B8, args[1].t))))
+		st.mem[data] = c.define("H_"+data, tr.memSortFull(data), sx("store", d0, args[0].t, na))
+		st.mem[ln] = c.define("H_"+ln, tr.memSortFull(ln), sx("store", tr.memGet(st, ln), args[0].t, it.addNW(l0, w)))
+		f.noteWrite(data, b.Index)
+		f.noteWrite(ln, b.Index)
+		if tt, ok := rt.(*types.Tuple); ok && tt.Len() == 2 {
+			return Val{tup: []Val{{t: w, typ: tt.At(0).Type()}, {t: "ifc_nil", typ: tt.At(1).Type()}}}, true
+		}
+		return Val{}, true
+	case "(*bytes.Buffer).String", "(*strings.Builder).String":
+		ln, data := tr.bufKeys()
+		s := c.declConst("bufstr", "Str")
+		c.axiom(s, and(eq(sx("slen", s), sx("select", tr.memGet(st, ln), args[0].t)), eq(sx("sbytes", s), sx("select", tr.memGet(st, data), args[0].t))))
+		return Val{t: s, typ: rt}, true
+	case "(*bytes.Buffer).Len", "(*strings.Builder).Len":
+		ln, _ := tr.bufKeys()
+		return Val{t: sx("select", tr.memGet(st, ln), args[0].t), typ: rt}, true
 	case "unicode/utf8.RuneCountInString":
 		c.declFun("utf8_count", []Sx{"Str"}, it.isort())
 		v := Val{t: c.define(name, it.isort(), sx("utf8_count", args[0].t)), typ: rt}
@@ -248,6 +307,15 @@ func (f *Frame) modelCall(b *ssa.BasicBlock, st *State, fn *ssa.Function, fname 
 		}
 	}
 	return Val{}, false
+}
+
+// ghost content of bytes.Buffer / strings.Builder objects
+func (tr *Translator) bufKeys() (ln, data string) {
+	c := tr.c
+	ln, data = "XB:len", "XB:data"
+	tr.regKey(ln, []Sx{"Int"}, c.it.isort())
+	tr.regKey(data, []Sx{"Int", c.it.isort()}, c.it.sort(intKind{8, false}))
+	return
 }
 
 // litLen: if term is a string literal constant, its length
